@@ -10,5 +10,6 @@ CONSTANTS
   Barrier = TRUE
   CacheDbErr = FALSE
   QueryOnErr = TRUE
+  TwoStepNF = FALSE
 INVARIANTS FailFast
 CHECK_DEADLOCK FALSE
